@@ -50,11 +50,14 @@ pub struct HCfg {
     pub dedup: bool,
     /// a crash (signal) or hang of the child is a violation of the property (sequential checks)
     pub crash_is_violation: bool,
+    /// root histories the search starts from (depth counts operations *after* the root); the
+    /// empty history is the initial state. Non-initial roots make deep states reachable.
+    pub roots: Vec<Vec<String>>,
 }
 
 pub fn bfs(pool: &mut Pool, cfg: &str, h: &HCfg, stats: &mut HStats) {
     let mut seen: HashSet<String> = HashSet::new();
-    let mut level: Vec<Vec<String>> = vec![vec![]];
+    let mut level: Vec<Vec<String>> = if h.roots.is_empty() { vec![vec![]] } else { h.roots.clone() };
     for depth in 0..=h.max_depth {
         if level.is_empty() {
             stats.depth_completed = h.max_depth;
